@@ -358,6 +358,22 @@ def r4(ctx):
                  f"{len(tests)} separate alignment tests (address, offset, length)" if ok else
                  f"`{fid}` makes {len(tests)} alignment test(s) {[shape_str(sh) for sh, _ in tests]} instead of testing address, offset and length each on its own: "
                  "a transfer the other API refuses with EINVAL completes here (or the reverse)")
+    # ... and in the same order: the request is validated (alignment -> EINVAL) before the injected fault is drawn (-> EIO). The other
+    # order answers a misaligned O_DIRECT transfer with EIO whenever the fault fires and consumes an extra draw of the fs generator
+    for fid in ("turmoil_io_uring::sim::exec_read", "turmoil_io_uring::sim::exec_write", "turmoil_fs::shim::std::fs::File::read_at_internal", "turmoil_fs::shim::std::fs::File::write_at_internal"):
+        if fid not in ctx.w.bodies:
+            continue
+        for fb in ctx.w.family(fid):
+            al = [bb for bb, t in fb.calls(re.compile(r"direct_io_aligned$|::is_multiple_of$|check_direct_io_alignment$"))]
+            al += [bb for bb, i, s2 in fb.all_stmts() if i != "term" and s2["r"]["k"] == "bin" and s2["r"]["op"] == "Rem"]
+            dr = [(bb, t) for bb, t in fb.calls(re.compile(r"FsContext::random_bool$|sim::sample_prob$|Rng::random_bool$"))
+                  if any("io_error_probability" in a for x in t["args"] for a in Slicer(ctx.w).atoms(fb, x))]
+            if not al or not dr:
+                continue
+            ok = not any(a in fb.reachable(bb) and a != bb for bb, t in dr for a in al)
+            ctx.inst(R, f"{fid.rsplit('::', 1)[1]}:validated-before-the-fault-draw", ok, dr[0][1]["s"], "alignment is checked before the injected I/O error is drawn" if ok else
+                     f"`{fid}` draws the injected I/O error before it validates the O_DIRECT alignment: a misaligned transfer completes with EIO here where the sibling API reports "
+                     "EINVAL, and the extra draw shifts every later fault of the host's filesystem generator")
     # page-cache probe: hit / miss is decided before the page is inserted, in the ring scheduler as in the tokio shim
     n = 0
     for b in sorted(ctx.w.bodies.values(), key=lambda b: b.id):
@@ -608,6 +624,9 @@ def _fields(b, op):
 
 def run(ctx):
     r11(ctx)
+    if ctx.config in ("all", "fs", "fs_iou"):
+        from . import C07
+        C07.r7(ctx)   # the result of the flush is the result of the fsync: a failed sync_file must not complete with 0
     r10(ctx)
     r9(ctx)
     scan_rule(ctx, "C18")
